@@ -41,35 +41,31 @@ Theorem C11_small_offset_rejected : forall single hsize be vox l,
 Proof. exact small_offset_rejected. Qed.
 Print Assumptions C11_small_offset_rejected.
 
-(* no overlap + data unaffected by extensions.  FULL STATEMENT (for every user offset
-   vox >= minimum) is false of the faithful model when there is at least one extension and
-   16 or more bytes of slack: the reader takes the zero fill for another extension header
-   (finding S-C11a, see C11_any_offset_refuted).  Proved here: automatic offset, or user
-   offset with < 16 bytes of slack, or no extensions with any offset. *)
-Theorem C11_no_overlap_partial : forall hsize be vox l data,
+(* no overlap + data unaffected by extensions, FULL STATEMENT: for every list of extensions,
+   either byte order, the automatic offset or ANY user offset that leaves room (vox >= header +
+   extender + all extensions): the file is written, the stored offset is the user's (or the
+   minimum), and reading it back gives the extensions (NUL-stripped) and exactly the data.
+   (Before fix 929c1372 this failed for >= 16 bytes of slack with an extension present:
+   finding S-C11a, now repaired; its regression probe runs on every check.) *)
+Theorem C11_no_overlap : forall hsize be vox l data,
   Forall wf_ext l -> 0 <= hsize ->
-  (vox = 0 \/ hsize + 4 + sum_sizes l <= vox < hsize + 4 + sum_sizes l + 16
-   \/ l = [] /\ hsize + 4 <= vox) ->
+  (vox = 0 \/ hsize + 4 + sum_sizes l <= vox) ->
   exists vox' tail,
     single_tail hsize be vox l data = Some (vox', tail)
     /\ hsize + 4 + sum_sizes l <= vox'
     /\ (vox = 0 -> vox' = hsize + 4 + sum_sizes l)
+    /\ (vox <> 0 -> vox' = vox)
     /\ single_read hsize be vox' tail = Ok (map strip_ext l, data).
 Proof. exact single_file_roundtrip. Qed.
-Print Assumptions C11_no_overlap_partial.
+Print Assumptions C11_no_overlap.
 
-Theorem C11_any_offset_refuted :
-  exists hsize be vox l data vox' tail,
-    Forall wf_ext l /\ hsize + 4 + sum_sizes l <= vox
-    /\ single_tail hsize be vox l data = Some (vox', tail)
-    /\ single_read hsize be vox' tail = Err ErrExtContent.
-Proof.
-  exists 348, false, 384, [mkExt 6 [104]], [1;2].
-  eexists; eexists. split; [|split; [|split; [vm_compute; reflexivity|vm_compute; reflexivity]]].
-  - repeat constructor; unfold byte_ok; cbn; try lia; vm_compute; reflexivity.
-  - vm_compute. discriminate.
-Qed.
-Print Assumptions C11_any_offset_refuted.
+(* the reader stops at the zero fill *)
+Theorem C11_zero_fill_ends_extensions : forall be l fuel slack k rest acc,
+  Forall wf_ext l -> (length l + 1 < fuel)%nat -> 16 <= slack -> 8 <= k ->
+  read_exts fuel be (sum_sizes l + slack) (write_exts be l ++ zeros k ++ rest) acc
+  = Ok (rev acc ++ map strip_ext l, drop 8 (zeros k ++ rest)).
+Proof. exact read_exts_fill. Qed.
+Print Assumptions C11_zero_fill_ends_extensions.
 
 (* non-vacuity: a concrete non-trivial list meets the hypotheses *)
 Example C11_nonvacuous :
